@@ -147,3 +147,76 @@ package searcher
 //@   requires !isNaN(min) && !isNaN(max)
 //@   requires forall v int64 :: !cov[v]
 //@   at call splitInt64Range: assert [interval-is-the-requested-one] forall v int64 :: !isNaN(frombits(i2fbits(v))) ==> ((minBound <= v && v <= maxBound) <==> ((isNegInf(min) || ite(inclusiveMin, v >= f2ibits(bits(min)), v > f2ibits(bits(min)))) && (isPosInf(max) || ite(inclusiveMax, v <= f2ibits(bits(max)), v < f2ibits(bits(max))))))
+
+// ---------------------------------------------------------------------------
+// C17: what a searcher does with the scorer's answer. The score of a hit is what the scorer said for
+// exactly this posting's frequency and norm (or, with explanations on, the value of the explanation the
+// scorer built for them, which is attached to the hit); a compound hit scores what the composite scorer
+// said for exactly its constituents.
+// ---------------------------------------------------------------------------
+//@ ghost var lastFreq int
+//@ ghost var lastNorm real
+//@ ghost var lastScore real
+//@ ghost var lastExpl ref
+//@ ghost var lastComposite real
+//@ ghost var lastCompositeExpl ref
+//@ ghost var lastCompositeArgBase ref
+//@ ghost var lastCompositeArgLen int
+
+//@ func github.com/blugelabs/bluge_segment_api.Posting.Frequency(recv) (f)
+//@   interface
+//@   props C17
+//@   modifies lastFreq
+//@   effect lastFreq == f
+//@ func github.com/blugelabs/bluge_segment_api.Posting.Norm(recv) (n)
+//@   interface
+//@   props C17
+//@   modifies lastNorm
+//@   effect lastNorm == n
+//@ func github.com/blugelabs/bluge/search.Scorer.Score(recv, freq, norm) (r)
+//@   interface
+//@   props C17
+//@   modifies lastScore
+//@   effect lastScore == r
+//@ func github.com/blugelabs/bluge/search.Scorer.Explain(recv, freq, norm) (e)
+//@   interface
+//@   props C17
+//@   modifies lastExpl
+//@   effect lastExpl == e && e != nil
+//@ func github.com/blugelabs/bluge/search.CompositeScorer.ScoreComposite(recv, constituents) (r)
+//@   interface
+//@   props C17
+//@   modifies lastComposite, lastCompositeArgBase, lastCompositeArgLen
+//@   effect lastComposite == r && lastCompositeArgBase == base(constituents) && lastCompositeArgLen == len(constituents)
+//@ func github.com/blugelabs/bluge/search.CompositeScorer.ExplainComposite(recv, constituents) (e)
+//@   interface
+//@   props C17
+//@   modifies lastCompositeExpl, lastCompositeArgBase, lastCompositeArgLen
+//@   effect lastCompositeExpl == e && e != nil && lastCompositeArgBase == base(constituents) && lastCompositeArgLen == len(constituents)
+
+//@ func TermSearcher.buildDocumentMatch(ctx, termMatch) (rv)
+//@   props C17
+//@   requires s != nil && ctx != nil
+//@   modifies *
+//@   at call Score: assert [scored-with-this-posting's-frequency-and-norm] freq == lastFreq && norm == lastNorm
+//@   at call Explain: assert [explained-with-this-posting's-frequency-and-norm] freq == lastFreq && norm == lastNorm
+//@   ensures [score-is-the-scorer's-answer] !s.options.Explain ==> rv.Score == lastScore
+//@   ensures [score-is-the-explanation's-value] s.options.Explain ==> (rv.Explanation == lastExpl && rv.Score == ptr(Explanation, lastExpl).Value)
+
+//@ func ConjunctionSearcher.buildDocumentMatch(constituents) (rv)
+//@   props C17
+//@   requires s != nil && len(constituents) > 0
+//@   modifies *
+//@   ensures [compound-score-is-the-composite-scorer's-answer-for-all-constituents] lastCompositeArgBase == base(constituents) && lastCompositeArgLen == len(constituents) && (!s.options.Explain ==> rv.Score == lastComposite)
+
+//@ func DisjunctionSliceSearcher.buildDocumentMatch(constituents) (rv)
+//@   props C17
+//@   requires s != nil && len(constituents) > 0
+//@   modifies *
+//@   ensures [compound-score-is-the-composite-scorer's-answer-for-all-constituents] lastCompositeArgBase == base(constituents) && lastCompositeArgLen == len(constituents) && (!s.options.Explain ==> rv.Score == lastComposite)
+
+//@ func BooleanSearcher.buildDocumentMatch(constituents) (rv)
+//@   props C17
+//@   requires s != nil && len(constituents) > 0
+//@   modifies *
+//@   ensures [compound-score-is-the-composite-scorer's-answer-for-all-constituents] lastCompositeArgBase == base(constituents) && lastCompositeArgLen == len(constituents) && (!s.options.Explain ==> rv.Score == lastComposite)
